@@ -181,7 +181,17 @@ def run(ctx):
         else:
             for sig, desc, rep in r:
                 failures.append((sig, desc, dict(rep, job=list(job))))
-    e2e = dict(cases=len(jobs), distinct=len(set(jobs)), failures=failures,
+    # the statement catalogue with a directive line in front of every line and after the last one
+    import catprod
+    cj = [(("f2003", "f2008")[k % 2], b, src, "directive") for k, (b, src) in enumerate(catprod.sources(ctx.quick, ctx.seed))]
+    ncat = 0
+    for job, (st, r) in zip(cj, pool.pmap(catprod.check_insert, cj, chunksize=8)):
+        if st != "ok":
+            failures.append(("harness_error", r[:300], dict(job=list(job))))
+        else:
+            ncat += r[0]
+            failures += r[1]
+    e2e = dict(cases=len(jobs) + ncat, distinct=len(set(jobs)) + ncat, failures=failures, catalogue_programs=ncat,
                rule="generated programs with one or several of 17 directive forms (all kinds, backslash continuation, "
                     "indented '#') inserted at random statement boundaries (any depth, before/after units, next to "
                     "comments): directive nodes == inserted in order with equal payload; block structure with Cpp "
@@ -193,4 +203,7 @@ def run(ctx):
 
 
 def replay(ctx, data):
+    if "catalogue_insert" in data:
+        import catprod
+        return not catprod.check_insert((data.get("std", "f2003"), "", data["canonical"], data["catalogue_insert"]))[1]
     return not check_one(tuple(data["job"]))
